@@ -312,6 +312,12 @@ pub fn c02_menu(rng: &mut Prng, thorough: bool, signal: &[u8]) -> Vec<Alter> {
         menu.push(Alter::DeclaredLen { len: signal.len() as u64 - 1 });
         menu.push(Alter::DeclaredLen { len: 0 });
     }
+    // a declared length beyond the attached bytes (the property names the declared length without a direction):
+    // one more, a page more, far more than any buffer
+    let sl = signal.len() as u64;
+    menu.push(Alter::DeclaredLen { len: sl + 1 });
+    menu.push(Alter::DeclaredLen { len: sl + 4096 });
+    menu.push(Alter::DeclaredLen { len: 1 << 40 });
     menu
 }
 
